@@ -153,6 +153,82 @@ def _mask_ids(obj, known):
     return obj
 
 
+_WEB = {}
+
+
+class _FakeConnection:
+    """What a RequestHandler needs of its HTTP connection: somewhere to write the response."""
+
+    def __init__(self):
+        self.status, self.headers, self.chunks, self.finished = None, None, [], False
+
+    def set_close_callback(self, cb):
+        pass
+
+    def write_headers(self, start_line, headers, chunk=None):
+        self.status, self.headers = start_line.code, headers
+        if chunk:
+            self.chunks.append(bytes(chunk))
+        import asyncio
+        f = asyncio.get_event_loop().create_future()
+        f.set_result(None)
+        return f
+
+    def write(self, chunk):
+        self.chunks.append(bytes(chunk))
+        import asyncio
+        f = asyncio.get_event_loop().create_future()
+        f.set_result(None)
+        return f
+
+    def finish(self):
+        self.finished = True
+
+
+def _web_call(op):
+    """One API request to nbdime's web application, the way a long-running server sees it: the application object
+    (and whatever it caches in its settings) lives as long as the process; the notebooks are files in the working
+    directory, re-read on every request.  No sockets: the real handler runs against an in-memory connection."""
+    import asyncio
+    from tornado import httputil
+    import nbdime.webapp.nbdimeserver as srv
+    cwd = os.getcwd()
+    if _WEB.get("cwd") != cwd:
+        _WEB["app"] = srv.make_app(cwd=cwd, closable=False)
+        _WEB["cwd"] = cwd
+    names = {}
+    for k in ("a", "b", "base", "local", "remote"):
+        if k in op:
+            names[k] = "web-%s.ipynb" % k
+            with open(os.path.join(cwd, names[k]), "w", encoding="utf8") as f:
+                json.dump(op[k], f)
+    if op["op"] == "web_diff":
+        uri, body = "/api/diff", {"base": names["a"], "remote": names["b"]}
+    else:
+        uri, body = "/api/merge", {"base": names["base"], "local": names["local"], "remote": names["remote"]}
+    conn = _FakeConnection()
+    loop = asyncio.new_event_loop()
+    asyncio.set_event_loop(loop)
+    try:
+        req = httputil.HTTPServerRequest(method="POST", uri=uri, version="HTTP/1.1",
+                                         headers=httputil.HTTPHeaders({"Content-Type": "application/json", "Host": "localhost"}),
+                                         body=json.dumps(body).encode("utf8"), host="localhost", connection=conn)
+        app = _WEB["app"]
+        delegate = app.find_handler(req)
+        handler = delegate.handler_class(app, req, **delegate.handler_kwargs)
+        transforms = [t(req) for t in app.transforms]
+        loop.run_until_complete(handler._execute(transforms, *delegate.path_args, **delegate.path_kwargs))
+    finally:
+        asyncio.set_event_loop(None)
+        loop.close()
+    raw = b"".join(conn.chunks)
+    try:
+        payload = json.loads(raw.decode("utf8")) if conn.status == 200 else None
+    except ValueError:
+        payload = "<not json>"
+    return {"status": conn.status, "body": payload}
+
+
 def perform(op):
     """Execute a compared operation on fresh deep copies; returns {'value': canon} or {'exc': [type, msg]}."""
     import nbformat
@@ -173,6 +249,8 @@ def perform(op):
         elif op["op"] == "decide":
             b, l, r = (load(op[k]) for k in ("base", "local", "remote"))
             val = decide_notebook_merge(b, l, r, _ns(dict(op.get("args", {}), merge_strategy="mergetool")))
+        elif op["op"] in ("web_diff", "web_merge"):
+            val = _web_call(op)
         else:
             raise HarnessError("not a compared op: %r" % op["op"])
         val = json.loads(json.dumps(val))
@@ -289,6 +367,10 @@ def generate(rng, index, cfg):
         pool = _pool(rng, swarm)
     finally:
         nbgen.LONG_P[0] = 0.0
+    swarm["web"] = rng.random() < 0.15
+    if swarm["web"]:
+        swarm["w_merge"] = max(swarm["w_merge"], 0.5)
+        swarm["w_config"] = max(swarm["w_config"], 0.15)
     swarm["wide_md"] = rng.random() < 0.06
     if swarm["wide_md"]:
         # saved widget state: hundreds of distinct metadata keys, so that one call consults hundreds of distinct paths
@@ -338,7 +420,13 @@ def generate(rng, index, cfg):
         if issued and rng.random() < swarm.get("p_repeat", 0.0):
             return copy.deepcopy(rng.choice(issued))      # the same call again, later in the history
         op = _compared()
-        if rng.random() < 0.12:
+        if swarm.get("web") and rng.random() < 0.5:
+            # the same question asked through the web application's API handlers (one application for the whole history)
+            if op["op"] == "diff":
+                op = {"op": "web_diff", "a": op["a"], "b": op["b"]}
+            else:
+                op = {"op": "web_merge", "base": op["base"], "local": op["local"], "remote": op["remote"]}
+        elif rng.random() < 0.12:
             op["plain"] = True
         issued.append(op)
         return op
@@ -433,12 +521,15 @@ def generate(rng, index, cfg):
                 {"op": "ignores", "cfg": {pth: k2}}, copy.deepcopy(x)]
         if rng.random() < 0.5:
             ops += [compared()]
-    if ops[-1]["op"] not in ("diff", "merge", "decide"):
+    if ops[-1]["op"] not in COMPARED:
         ops.append(compared())
     return {"swarm": swarm, "pool": flat, "ops": ops}
 
 
 # ------------------------------------------------------------------ execution
+
+COMPARED = ("diff", "merge", "decide", "web_diff", "web_merge")
+
 
 def _inline(op, pool):
     out = dict(op)
@@ -606,7 +697,7 @@ class Runner:
             k = op["op"]
             self.stat("ops")
             self.stat("op_" + k)
-            if k in ("diff", "merge", "decide"):
+            if k in COMPARED:
                 inl = _inline(op, pool)
                 mine = perform(inl)
                 self.compare(op, inl, mine, prev_kind)
